@@ -1,4 +1,4 @@
-import AkVerif.Lemmas.TemplatesNesting
+import AkVerif.Lemmas.TemplatesDenote
 /-!
 # C05 — list, map and sequence templates return exactly the denoted items
 
@@ -212,6 +212,55 @@ theorem nesting (G : JsonG) (n : Nat) (t : Val) (d : Data) (h : Den G n t d) :
     ∃ r, cleanup G.cl t true false = .ok r ∧ entry r.1 = pyval d :=
   den_clean G n t d h
 
+/-- **Nesting, every derivation.** For the json-like grammar (production table `P`: `VALUE -> WORD | LIST | MAP` and
+the productions generated by the two templates, neither optional): every well-typed raw tree of the value symbol that
+conforms to `P` and whose `WORD` nodes are token leaves denotes some data `d`, and therefore (`nesting`) is cleaned to
+exactly `pyval d` — no derivation of the grammar falls outside the statement, whatever its depth. -/
+theorem nesting_every_derivation (G : JsonG) (P : Prods) (hP : JsonP G P) (l : Bool) (v : Val)
+    (hw : wellTyped G.cl (.elem G.value l v) = true) (hc : conforms P (.elem G.value l v) = true)
+    (htok : TokOK G (.elem G.value l v)) :
+    ∃ d r, Den G (sizeOf (Val.elem G.value l v) + 1) (.elem G.value l v) d ∧
+      cleanup G.cl (.elem G.value l v) true false = .ok r ∧ entry r.1 = pyval d := by
+  obtain ⟨d, hd⟩ := den_exists G P hP _ l v (Nat.lt_succ_self _) hw hc htok
+  obtain ⟨r, hr, he⟩ := den_clean G _ _ d hd
+  exact ⟨d, r, hd, hr, he⟩
+
+/-- **Squashing around container items.** A squashable symbol (all its rules have at most one symbol) that is not
+in `keep_symbols` disappears around a container item: cleaning `name[x]` with `for_container=True` is cleaning `x`
+(so chains such as `LIST_ITEM[VALUE[WORD]]` collapse to the innermost element, whose value becomes the entry). A kept
+symbol stays, as a one-child element, exactly when its child is kept too (a kept symbol, or selected by a choice
+symbol) — the entry is then that element, by the user's request. -/
+theorem squash_around_items (cl : Cleanuper) (name : Name) (x : Val)
+    (hT : lookup cl.templates name = none) (hs : name ∈ cl.squash) :
+    (name ∉ cl.keep →
+      cleanup cl (.elem name false (.list [x])) true false = cleanup cl x false (decide (name ∈ cl.choice))) ∧
+    (name ∈ cl.keep → ∀ r fc, cleanup cl x false (decide (name ∈ cl.choice)) = .ok r →
+      (r.2 = true ∨ r.1.1 ∈ cl.keep) →
+      cleanup cl (.elem name false (.list [x])) fc false = .ok ((name, false, .list [r.1.toVal]), true)) :=
+  ⟨fun hk => cleanup_squash_in_container cl name x hT hs hk,
+   fun hk r fc hx hc => cleanup_kept_in_container cl name x r fc hT hs hk hx hc⟩
+
+/-- **No exceptions.** Let the raw tree be built the way the parser builds trees (`wellTyped`: leaves hold `None`,
+token text or a flattened sequence; inner nodes hold a non-empty list of elements; a squash symbol has exactly one
+child) and let every node of a template symbol conform to the productions the template generates (`conforms P`,
+`TplOK`: every template is well-formed, registered under its result symbol, and `P` lists its productions). Then the
+clean-up — signature look-ups, positional indexing, squashing — never raises `AssertionError`, `IndexError` or
+`AttributeError`: it returns, or raises Python's `TypeError` for an unhashable dictionary key (a key that is itself a
+list or a map). -/
+theorem no_exceptions (cl : Cleanuper) (P : Prods) (hT : TplOK cl P) (t : Val)
+    (hw : wellTyped cl t = true) (hc : conforms P t = true) (fc fch : Bool) :
+    (∃ r, cleanup cl t fc fch = .ok r) ∨ cleanup cl t fc fch = .error .typeError :=
+  cleanup_fine cl P hT (sizeOf t + 1) t (Nat.lt_succ_self _) hw hc fc fch
+
+/-- **Squash data** (`StdCleanuper._make_squash_data`): the squash symbols are the non-suffix symbols of `prods_map`
+(in its order) all of whose rules have at most one symbol; the choice symbols are those among them with more than one
+one-symbol rule. -/
+theorem squash_data (P : Prods) (suffix : List Name) :
+    mkSquashData P suffix =
+      ((P.filter (squashOK suffix)).map (·.1),
+       ((P.filter (squashOK suffix)).filter fun p => 1 < (p.2.filter fun r => r.length = 1).length).map (·.1)) :=
+  mkSquashData_eq P suffix
+
 /-! Non-vacuity: the hypotheses hold for `LIST = ListProds('[', 'ITEM', ',', ']')`, `MAP = MapProds('{', 'WORD', ':',
 'VALUE', ',', '}')` and concrete raw trees, and the kernel evaluates the model on them. -/
 
@@ -294,5 +343,40 @@ example : (match cleanup exG.cl (nd "VALUE" [exNL]) true false with
     | .ok r => some (entry r.1)
     | .error _ => none) =
     some (.list [.str "a".toList, .dict [(.str "k".toList, .str "b".toList)]]) := by rfl
+
+example : TplOK exG.cl (exLV.genProds ++ exM.genProds) := by
+  constructor
+  · intro name o h
+    simp only [exG, lookup] at h
+    split at h
+    · cases h
+      exact ⟨by assumption, by constructor <;> decide, by decide, by decide⟩
+    · split at h
+      · cases h
+      · cases h
+  · intro name o h
+    simp only [exG, lookup] at h
+    split at h
+    · cases h
+    · split at h
+      · cases h
+        exact ⟨by assumption, by constructor <;> decide, by decide, by decide, by decide⟩
+      · cases h
+example : wellTyped exG.cl (nd "VALUE" [exNL]) = true := by decide
+example : conforms (exLV.genProds ++ exM.genProds) (nd "VALUE" [exNL]) = true := by decide
+
+private def exP : Prods :=
+  ("VALUE".toList, [["WORD".toList], ["LIST".toList], ["MAP".toList]]) :: (exLV.genProds ++ exM.genProds)
+example : JsonP exG exP := by
+  constructor <;> first | rfl | decide
+example : conforms exP (nd "VALUE" [exNL]) = true := by decide
+example : TokOK exG (vw "a") := by
+  intro y hy l v e
+  simp [vw, nd, tok, preorder_node, preorderAll_cons, preorderAll_nil, preorder] at hy
+  rcases hy with rfl | rfl
+  · simp [exG] at e
+  · simp [exG] at e
+    obtain ⟨rfl, rfl⟩ := e
+    exact ⟨rfl, _, rfl⟩
 
 end C05
